@@ -731,6 +731,8 @@ func (w *rWorld) close() {
 	synctest.Wait()
 }
 
+var routingFocus string // the property the running engine checks (set by runRoutingFocus)
+
 // runRoutingTrace executes one trace inside a bubble. `next` yields the next op given the world
 // (nil ends the trace); the first op must be `begin ns nt cap seed`.
 func runRoutingTrace(t *testing.T, e *Env, begin string, next func(w *rWorld, i int) string) (ops []string, viol []map[string]any) {
@@ -794,8 +796,14 @@ func runRoutingTrace(t *testing.T, e *Env, begin string, next func(w *rWorld, i 
 				viol = append(viol, v)
 			}
 			w.viol = nil
-			if len(viol) > 0 {
-				break // a violated trace is reported at its first violation
+			stop := false
+			for _, v := range viol {
+				// a violated trace is reported at its first violation OF THE PROPERTY BEING CHECKED; a violation of a neighbouring
+				// property (reported by that property's own check) must not cut the trace short before this one's shows
+				stop = stop || routingFocus == "" || v["prop"] == routingFocus
+			}
+			if stop {
+				break
 			}
 		}
 		e.Dist["keepalives_filtered"] += w.keepalives
